@@ -1365,3 +1365,45 @@ Proof.
   apply compaction_output_in_order; try assumption.
   eapply batch_ok_sorted; [|exact Hb]. apply (x_sorted _ _ _ (idx_run c0 ls Hc Hk)).
 Qed.
+
+(** * The whole REPLAY outside the known classes *)
+
+(** known class of the fan-in finding: the context has rows of the type in both flows *)
+Definition MemtableAndSegmentFlowsInterleave (s : shard) (u c : N) : bool :=
+  negb (is_empty (replay_mem s u c)) && negb (is_empty (replay_seg s u c)).
+
+Lemma Interleave_nil_l {A} (b r : list A) : Interleave [] b r -> r = b.
+Proof.
+  revert r. induction b as [|x b IH]; intros r H; inversion H; subst; [reflexivity|].
+  f_equal. apply IH. assumption.
+Qed.
+
+Lemma Interleave_nil_r {A} (a r : list A) : Interleave a [] r -> r = a.
+Proof.
+  revert r. induction a as [|x a IH]; intros r H; inversion H; subst; [reflexivity|].
+  f_equal. apply IH. assumption.
+Qed.
+
+Theorem replay_order_outside_known : forall c0 ls u c r,
+  no_crash ls -> NoDup (map ek (applied ls)) ->
+  let s := run (init c0) ls in
+  MemtableAndSegmentFlowsInterleave s u c = false -> ActiveBeforePassive s u c = false ->
+  Interleave (replay_mem s u c) (replay_seg s u c) r ->
+  dedup_keys r = ctx_events ls u c.
+Proof.
+  intros c0 ls u c r Hc Hk s Hf Ha Hi.
+  pose proof (seg_then_mem_outside_known c0 ls u c Hc Hk Ha) as H. fold s in H.
+  unfold MemtableAndSegmentFlowsInterleave in Hf.
+  apply andb_false_iff in Hf as [Hf|Hf]; apply negb_false_iff, is_empty_true in Hf; rewrite Hf in *.
+  - apply Interleave_nil_l in Hi. subst r. rewrite app_nil_r in H. exact H.
+  - apply Interleave_nil_r in Hi. subst r. exact H.
+Qed.
+
+(** both classes are avoided by a context that lives in the active memtable only, or
+    on disk only; e.g. [ls_fanin] for context 2 (one event, flushed) *)
+Example replay_order_example :
+  let s := run (init 4) ls_fanin in
+  MemtableAndSegmentFlowsInterleave s 0 2 = false /\ ActiveBeforePassive s 0 2 = false /\
+  map ek (replay_seg s 0 2) = [2] /\ replay_mem s 0 2 = [] /\
+  MemtableAndSegmentFlowsInterleave s 0 1 = true.
+Proof. cbv zeta. repeat split; vm_compute; reflexivity. Qed.
